@@ -463,12 +463,23 @@ type av1G struct {
 	level  int
 	tier   bool
 	highBD bool
+	// color_config: an explicit colour description (color_description_present_flag = 1) with three
+	// DIFFERENT code points, so that a CODECS string that mixes the fields up is not the same string
+	colorDesc  bool
+	cp, tc, mc int  // color_primaries, transfer_characteristics, matrix_coefficients (ISO/IEC 23091-4 code points)
+	fullRange  bool // color_range
+	chromaPos  int  // chroma_sample_position (0 unknown, 1 vertical, 2 colocated)
 }
 
-var av1Gs = []av1G{{8, false, false}, {9, true, false}, {8, false, true}}
+var av1Gs = []av1G{
+	{level: 8},
+	{level: 9, tier: true, colorDesc: true, cp: 1, tc: 13, mc: 6, chromaPos: 1},                     // BT.709 primaries, sRGB transfer, BT.601 matrix
+	{level: 8, highBD: true, colorDesc: true, cp: 12, tc: 16, mc: 9, fullRange: true, chromaPos: 2}, // P3-D65, PQ, BT.2020 NCL, full range
+}
 
 // av01.<profile>.<level><tier>.<bitDepth>.<monochrome>.<subsamplingX subsamplingY chromaSamplePosition>.
 // <colour primaries>.<transfer>.<matrix>.<full range>; no colour description -> the defaults 01.01.01.0
+// (literal expectations per variant; the C16 oracle recomputes the string from the header bytes, codecstr.go)
 func av1CodecString(p int64) string {
 	g := av1Gs[pg(p)]
 	tier, bd := "M", 8
@@ -478,7 +489,11 @@ func av1CodecString(p int64) string {
 	if g.highBD {
 		bd = 10
 	}
-	return fmt.Sprintf("av01.0.%02d%s.%02d.0.110.01.01.01.0", g.level, tier, bd)
+	colour := "01.01.01.0"
+	if g.colorDesc {
+		colour = fmt.Sprintf("%02d.%02d.%02d.%d", g.cp, g.tc, g.mc, b2i(g.fullRange))
+	}
+	return fmt.Sprintf("av01.0.%02d%s.%02d.0.11%d.%s", g.level, tier, bd, g.chromaPos, colour)
 }
 
 // sequence header OBU; ids with an odd id are handed over WITHOUT the obu_size field (the muxer adds it)
@@ -522,9 +537,16 @@ func av1SeqHdrPayload(p int64) []byte {
 	// color_config
 	w.flag(g.highBD)
 	w.put(0, 1) // mono_chrome
-	w.put(0, 1) // color_description_present_flag
-	w.put(0, 1) // color_range
-	w.put(0, 2) // chroma_sample_position: CSP_UNKNOWN
+	w.flag(g.colorDesc) // color_description_present_flag
+	if g.colorDesc {
+		w.put(uint64(g.cp), 8) // color_primaries
+		w.put(uint64(g.tc), 8) // transfer_characteristics
+		w.put(uint64(g.mc), 8) // matrix_coefficients
+	}
+	// (mono_chrome = 0 and not the sRGB / identity special case: color_range is coded; Main profile:
+	// subsampling_x = subsampling_y = 1, so chroma_sample_position follows)
+	w.flag(g.fullRange)            // color_range
+	w.put(uint64(g.chromaPos), 2) // chroma_sample_position
 	w.put(0, 1) // separate_uv_delta_q
 	w.flag(v.filmGrain)
 	w.trailing()
@@ -705,12 +727,23 @@ func selfCheckCodecs() {
 		must(sh.Width() == av1Width(p) && sh.Height() == av1Height(p) && sh.SeqProfile == 0 &&
 			int(sh.SeqLevelIdx[0]) == g.level && sh.SeqTier[0] == g.tier && sh.ColorConfig.HighBitDepth == g.highBD &&
 			!sh.ColorConfig.MonoChrome && sh.ColorConfig.SubsamplingX && sh.ColorConfig.SubsamplingY &&
-			!sh.ColorConfig.ColorDescriptionPresentFlag && sh.EnableCdef == av1Q[pq(p)].cdef, "av1 sequence header %d: %+v", p, sh)
+			sh.ColorConfig.ColorDescriptionPresentFlag == g.colorDesc && sh.ColorConfig.ColorRange == g.fullRange &&
+			int(sh.ColorConfig.ChromaSamplePosition) == g.chromaPos &&
+			(!g.colorDesc || (int(sh.ColorConfig.ColorPrimaries) == g.cp && int(sh.ColorConfig.TransferCharacteristics) == g.tc &&
+				int(sh.ColorConfig.MatrixCoefficients) == g.mc && g.cp != g.mc && g.cp != g.tc && g.tc != g.mc)) &&
+			sh.EnableCdef == av1Q[pq(p)].cdef, "av1 sequence header %d: %+v", p, sh)
 		var sh2 av1.SequenceHeader
 		must(sh2.Unmarshal(av1WithSize(av1SeqHdrOf(p))) == nil && sh2.Width() == sh.Width(), "av1 sequence header %d with size", p)
 		var oh av1.OBUHeader
 		must(oh.Unmarshal(av1SeqHdrOf(p)) == nil && oh.Type == av1.OBUTypeSequenceHeader && oh.HasSize == av1HasSize(p), "av1 OBU header %d", p)
 		uniq("av1", p, av1WithSize(av1SeqHdrOf(p)))
+		// the literal strings (used to classify the served CODECS for the trace) agree with the strings
+		// recomputed from the bytes (used by the C16 oracle), and the three classes g are distinct
+		for _, kind := range []int{kH265, kVP9, kAV1} {
+			must(sameCodecString(videoCodecString(kind, p), codecFromParamBytes(kind, p)), "codec string of kind %d id %d: literal %q, from bytes %q",
+				kind, p, videoCodecString(kind, p), codecFromParamBytes(kind, p))
+			must(videoCodecString(kind, p) != videoCodecString(kind, (p+4)%12), "codec strings of kind %d ids %d / %d coincide", kind, p, (p+4)%12)
+		}
 	}
 	// the bitstream the muxer builds from size-less OBUs is the one the harness expects
 	tu := [][]byte{av1OBU(av1OBUTD, false, nil), av1SeqHdrOf(1), av1OBU(av1OBUFrame, false, fill(5, 300))}
